@@ -16,6 +16,7 @@ structure Sim where
   emitCur : Array Nat := #[]               -- per replica: buffer length already reported as emitted
   aid : Array Nat := #[]                   -- author identity (a snapshot twin carries its source's)
   applied : Array (List Op) := #[]         -- per replica: operations applied so far (own + delivered)
+  handles : Array (List (String × Ts)) := #[]  -- per replica: Document handles (name ↦ node)
 deriving Inhabited
 
 def outcomeJ {α} (f : α → Json) : Outcome α → List (String × Json)
@@ -39,9 +40,19 @@ def specView (typ : DtType) (ops : List Op) : List (String × Json) :=
     [("spec", Json.mkObj [("List", listJ JVal.toJson v)]), ("specSize", jnat v.length)]
   | .document => []
 
-def parseCall (j : Json) : Option Call :=
+def parseCall (hs : List (String × Ts)) (j : Json) : Option Call :=
   let a := getJ j "a"
+  let h : Ts := (alFind (getS j "h") hs).getD Ts.oldest
   match getS j "m" with
+  | "dput" => some (.dput h (getS a "k") (JVal.ofJson (getJ a "v")))
+  | "dremove" => some (.dremove h (getS a "k"))
+  | "dinsert" => some (.dinsert h (getI a "pos") (getVals a "vs"))
+  | "ddelete" => some (.ddelete h (getI a "pos"))
+  | "ddeleteMany" => some (.ddeleteMany h (getI a "pos") (getI a "n"))
+  | "dupdate" => some (.dupdate h (getI a "pos") (getVals a "vs"))
+  | "dgetObj" => some (.dgetObj h (getS a "k"))
+  | "dgetArr" => some (.dgetArr h (getI a "pos") (getI a "n"))
+  | "dvalue" => some (.dvalue h)
   | "inc" => some (.inc (getI a "d"))
   | "mput" => some (.mput (getS a "k") (JVal.ofJson (getJ a "v")))
   | "mremove" => some (.mremove (getS a "k"))
@@ -119,14 +130,15 @@ def Sim.step (s : Sim) (j : Json) : Sim × Json :=
     let reps := (cuids.zipIdx.map fun (c, i) => Replica.new typ c (i = 0)).toArray
     let z := reps.map (fun _ => 0)
     let s' : Sim := { reps, log := #[], pubCur := z, dlvCur := z, emitCur := z,
-                      aid := (List.range reps.size).toArray, applied := reps.map (fun _ => []) }
+                      aid := (List.range reps.size).toArray, applied := reps.map (fun _ => []),
+                      handles := reps.map (fun _ => [("root", Ts.oldest)]) }
     -- initial emitted operations (the creator's snapshot operation) are reported per replica
     let (s'', posts) := (List.range reps.size).foldl (fun (acc : Sim × List Json) i =>
       let (s1, p) := acc.1.post i; (s1, acc.2 ++ [Json.mkObj p])) (s', [])
     (s'', Json.mkObj [("init", Json.arr posts.toArray)])
   | "call" =>
     let i := getN j "r"
-    match parseCall j with
+    match parseCall s.handles[i]! j with
     | none => (s, Json.mkObj [("bad", Json.bool true)])
     | some c =>
       let (r', o) := s.reps[i]!.call c
@@ -135,7 +147,7 @@ def Sim.step (s : Sim) (j : Json) : Sim × Json :=
       (s2, Json.mkObj (outcomeJ Ret.toJson o ++ p))
   | "tx" =>
     let i := getN j "r"
-    let calls := (getA j "calls").filterMap parseCall
+    let calls := (getA j "calls").filterMap (parseCall s.handles[i]!)
     let (r', outs, o) := s.reps[i]!.txCalls (getS j "tag") calls (getB j "stop") (getB j "fail")
     let s1 := { s with reps := s.reps.set! i r' }
     let (s2, p) := s1.post i
@@ -162,9 +174,43 @@ def Sim.step (s : Sim) (j : Json) : Sim × Json :=
     let r' := Replica.importFrom s.reps[i]!
     let s1 := { s with reps := s.reps.push r', pubCur := s.pubCur.push 0,
                        dlvCur := s.dlvCur.push s.dlvCur[i]!, emitCur := s.emitCur.push 0,
-                       aid := s.aid.push s.aid[i]!, applied := s.applied.push s.applied[i]! }
+                       aid := s.aid.push s.aid[i]!, applied := s.applied.push s.applied[i]!,
+                       handles := s.handles.push [("root", Ts.oldest)] }
     let (s2, p) := s1.post (s1.reps.size - 1)
     (s2, Json.mkObj p)
+  | "nav" =>
+    -- GetFromObject(key) / GetFromArray(pos) on the handle `from`; a non-nil result is bound to `to`
+    let i := getN j "r"
+    let hs := s.handles[i]!
+    let h : Ts := (alFind (getS j "from") hs).getD Ts.oldest
+    match s.reps[i]!.state with
+    | .doc d =>
+      let viaKey := (j.getObjVal? "key").isOk
+      let (errc, child) : Nat × Option Ts :=
+        if viaKey then
+          match d.assertLocal h .obj true with
+          | some c => (c, none)
+          | none =>
+            match d.findObj h with
+            | some (_, m, _) =>
+              match alFind (getS j "key") m with
+              | some c => if d.garbage c then (0, none) else (0, some c)
+              | none => (0, none)
+            | none => (0, none)
+        else
+          match d.assertLocal h .arr true with
+          | some c => (c, none)
+          | none =>
+            match (d.arrRga h).validateRange (getI j "pos") 1 with
+            | some c => (c, none)
+            | none => (0, ((d.liveChildren h).drop (getN j "pos")).head?)
+      match child with
+      | some c =>
+        let kind := match d.kindOf c with | .elem => "E" | .obj => "O" | .arr => "A"
+        ({ s with handles := s.handles.set! i (alSet (getS j "to") c hs) },
+         Json.mkObj [("err", jnat errc), ("kind", Json.str kind), ("value", (d.viewAt c).toJson)])
+      | none => (s, Json.mkObj [("err", jnat errc), ("kind", Json.null), ("value", Json.null)])
+    | _ => (s, Json.mkObj [("bad", Json.bool true)])
   | "hash" =>
     match getA j "ts" with
     | [e, l, c, d] =>
